@@ -68,6 +68,8 @@ def build(cell, data, name=None, shape_swap=False):
             attrs["res"] = cx
         elif form == "tuple":
             attrs["res"] = (cx, cy)
+        elif form == "ndarray":    # what a tuple attribute becomes after a netCDF round trip
+            attrs["res"] = np.array([float(cx), float(cy)])
         else:
             attrs["res"] = [cx, cy]
     if kind == "coords" or cell.get("coords"):
@@ -630,7 +632,7 @@ def cells(draw, square=None, fast=False):
         c = draw(coord_axes(cx, cy))
         return {"kind": "coords", "dims": dims, "cx": c["sx"], "cy": c["sy"], "yoff": c["yoff"], "xoff": c["xoff"],
                 "ydesc": c["ydesc"], "xdesc": c["xdesc"]}
-    form = draw(st.sampled_from(["tuple", "list"] + (["scalar", "scalar"] if cx == cy else [])))
+    form = draw(st.sampled_from(["tuple", "list", "ndarray"] + (["scalar", "scalar"] if cx == cy else [])))
     out = {"kind": kind, "dims": dims, "form": form, "cx": cx, "cy": cy}
     if kind == "res_over_coords":
         # coordinates that say something else (swapped, or other steps): the res attribute is the stated cell size
@@ -760,7 +762,7 @@ def delivery_cases():
         forms = []
         for cx in DELIVERY_VALUES:
             for cy in DELIVERY_VALUES:
-                for form in ("tuple", "list"):
+                for form in ("tuple", "list", "ndarray"):
                     forms.append({"kind": "res", "form": form, "cx": cx, "cy": cy})
                 forms.append({"kind": "res", "form": "tuple", "cx": cx, "cy": cy,
                               "coords": {"sx": cx, "sy": cy, "yoff": 3, "xoff": -7, "ydesc": True, "xdesc": False}})
@@ -781,7 +783,7 @@ def delivery_cases():
             i += 1
 
 
-N_DELIVERY = len(DELIVERY_RASTERS) * (len(DELIVERY_VALUES) ** 2 * 8 + len(DELIVERY_VALUES) * 2 + 1)
+N_DELIVERY = len(DELIVERY_RASTERS) * (len(DELIVERY_VALUES) ** 2 * 9 + len(DELIVERY_VALUES) * 2 + 1)
 
 
 # ---------------------------------------------------------------- shards
@@ -828,7 +830,7 @@ def shards(tier):
 
 
 LEVEL_TEXT = ("Randomised (Hypothesis) plus bounded-exhaustive search. Every generated elevation raster (all dtypes, NaN cells, plateaus, ramps, "
-              "non-float32-representable values) with its cell size delivered through every documented route (res scalar/tuple/list, coordinates, both, "
+              "non-float32-representable values) with its cell size delivered through every documented route (res scalar/tuple/list/ndarray, coordinates, both, "
               "none; x != y) is compared cell by cell with an independent float64 statement of the cited formulas (Horn slope, descent bearing, "
               "Laplacian curvature, Lambert shading) under a stated single-precision bound, together with NaN borders, ranges, exact flat-window values "
               "and summarize_terrain; locality is decided for every cell position of each sampled raster by single-cell edits (to NaN and to a value) with "
